@@ -4,6 +4,12 @@
 //! drawn from one of these, seeded from `mix(VERIF_SEED, check-tag, run-index)`.
 //! Logging and evidence code never draw from it.
 
+/// Depth of the tier being run (1 = quick; the thorough tier sets 3): generators multiply their
+/// size parameters (program length, step budget, history length, file count) by `Rng::deep()`.
+/// Set once by `main` before any run; scenarios are stored in replay files, so replay never
+/// depends on it.
+pub static DEPTH: std::sync::atomic::AtomicU32 = std::sync::atomic::AtomicU32::new(1);
+
 #[derive(Clone, Debug)]
 pub struct Rng {
     s: [u64; 4],
@@ -36,6 +42,11 @@ pub fn mix(seed: u64, tag: &str, i: u64) -> u64 {
 }
 
 impl Rng {
+    /// Size multiplier for this run: 1 in the quick tier; 1, 2 or 4 in the thorough tier.
+    pub fn deep(&mut self) -> u32 {
+        if DEPTH.load(std::sync::atomic::Ordering::Relaxed) <= 1 { 1 } else { *self.pick(&[1u32, 2, 4]) }
+    }
+
     pub fn new(seed: u64) -> Self {
         let mut x = seed;
         let s = [splitmix(&mut x), splitmix(&mut x), splitmix(&mut x), splitmix(&mut x)];
